@@ -205,6 +205,13 @@ def check_empty_call(ctx):
         hi.host_types = hi.host_types + (Table, Code, PerArg)
         me._on_miss = lambda key: hi.call_function(raw["__missing__"], [me, key], {}, {})
         try:
+            for st in multi.node.body:
+                # class-level defaults (whether sharing them is sound is another rule's business)
+                if isinstance(st, ast.Assign) and len(st.targets) == 1 and isinstance(st.targets[0], ast.Name):
+                    try:
+                        setattr(me, st.targets[0].id, hi.ev(st.value, {}))
+                    except AnalysisError:
+                        pass
             if init is not None:
                 hi.call_function(raw["__init__"], [me] + [HostFn(key_error) if p in ("key_error",) else "<arg>" for p in init.params[1:]], {}, {})
             for f in [a for a, v in me.__dict__.items() if v == "<arg>"]:
